@@ -22,6 +22,10 @@ type need struct {
 	// subject (optional, with probe): the rendered value the need is about; a dynamic call that
 	// is not handed that value cannot establish the need either
 	subject string
+	// about (optional): substrings one of which a dynamic call's rendering must contain for
+	// the call to be able to establish the need (what the need is about: the event's content,
+	// say); a callback that is handed none of it does not excuse a missing test
+	about []string
 }
 
 type lit struct {
@@ -119,6 +123,9 @@ func requireOnSuccessIdx(c *fw.Ctx, rule, fname string, fn *ssa.Function, idx in
 						}
 						if n.subject != "" && strings.Contains(l.Atom, "dyn(") && fw.AtomHelper(l.Atom) == nil && !dynGiven(l.Atom, n.subject) {
 							continue // no callback in this condition is handed the value
+						}
+						if len(n.about) > 0 && strings.Contains(l.Atom, "dyn(") && fw.AtomHelper(l.Atom) == nil && !mentionsAny(l.Atom, n.about) {
+							continue // the callback sees nothing of what the need is about
 						}
 						op = l.Atom
 					}
@@ -305,7 +312,7 @@ func checkC15(c *fw.Ctx) {
 			nd("the current membership is known", true, ".CurrentMembership(", "#1 == nil)"),
 			nd("the user is not banned", false, ".CurrentMembership(", "#0 == \"ban\")"),
 			nd("the member content decodes", true, "encoding/json.Unmarshal((gmsl.PDU).Content("+ev+"),local:*gmsl.MemberContent) == nil)"),
-			{what: "the authorising user, if any, is valid and local", alts: []lit{{[]string{"(*local:*gmsl.MemberContent.AuthorisedVia == \"\")"}, true}, {[]string{".Domain(gmsl/spec.NewUserID(*local:*gmsl.MemberContent.AuthorisedVia,true)#0) == *&param:input.LocalServerName)"}, true}}},
+			{what: "the authorising user, if any, is valid and local", alts: []lit{{[]string{"(*local:*gmsl.MemberContent.AuthorisedVia == \"\")"}, true}, {[]string{".Domain(gmsl/spec.NewUserID(*local:*gmsl.MemberContent.AuthorisedVia,true)#0) == *&param:input.LocalServerName)"}, true}}, about: []string{".Content(", "AuthorisedVia", "MemberContent"}},
 		}, 1)
 		// what is verified
 		for f, want := range map[string][]string{"Message": {".RedactEventJSON(", ".JSON(" + ev + ")"}, "AtTS": {".OriginServerTS(" + ev + ")"}, "ValidityCheckingFunc": {"func:gmsl.StrictValiditySignatureCheck"}, "ServerName": {"phi(", ".Domain(dyn(*&param:input.UserIDQuerier)("}} {
